@@ -1489,6 +1489,11 @@ func (f *frame) unop(t *ssa.UnOp) {
 		for _, fact := range x.wfFacts(elem, vals, f.cur.heap.next) {
 			f.assume(fact)
 		}
+		if len(x.W.Contracts.TypeInvs) > 0 {
+			for _, fact := range x.typeInvFacts(elem, vals, f.cur.heap) {
+				f.assume(fact)
+			}
+		}
 		f.set(t, Val{T: vals, Typ: t.Type()})
 	case token.SUB:
 		if isFloat(t.Type()) {
@@ -1824,4 +1829,43 @@ func (f *frame) newSlice(elem types.Type, ln, cp Term, typ types.Type) Val {
 	}
 	f.cur.heap = h
 	return Val{T: []Term{ref, BVInt(0, 64), ln, cp}, Typ: typ}
+}
+
+// typeInvFacts: declared data-structure invariants (`typeinv T pred`) of every non-nil *T among the leaves of a
+// value. They are ASSUMED (established by constructors outside the prover's reach) and listed as assumptions.
+func (x *Exec) typeInvFacts(t types.Type, vals []Term, heap *HeapState) []Term {
+	var out []Term
+	switch u := t.Underlying().(type) {
+	case *types.Pointer:
+		if n, ok := u.Elem().(*types.Named); ok && n.Obj().Pkg() != nil {
+			key := n.Obj().Pkg().Path() + "." + n.Obj().Name()
+			if pred, ok := x.W.Contracts.TypeInvs[key]; ok {
+				sf := x.W.Contracts.Specs[n.Obj().Pkg().Path()+"."+pred]
+				if sf != nil {
+					ctx := &EvalCtx{X: x, PkgPath: n.Obj().Pkg().Path(), Scope: n.Obj().Pkg().Scope(), Vars: map[string]Val{}, Heap: heap, Old: heap}
+					func() {
+						defer func() { recover() }()
+						r := ctx.callSpecWithArgs(sf, []Val{{T: []Term{vals[0]}, Typ: t}})
+						out = append(out, Implies(Not(Eq(vals[0], IntConst(0))), r.One()))
+						x.note("ASSUMED data-structure invariant %s of every *%s (established by its constructor, outside the prover's reach)", pred, n.Obj().Name())
+					}()
+				}
+			}
+		}
+	case *types.Struct:
+		lo := 0
+		for i := 0; i < u.NumFields(); i++ {
+			n := nLeaves(u.Field(i).Type())
+			out = append(out, x.typeInvFacts(u.Field(i).Type(), vals[lo:lo+n], heap)...)
+			lo += n
+		}
+	case *types.Tuple:
+		lo := 0
+		for i := 0; i < u.Len(); i++ {
+			n := nLeaves(u.At(i).Type())
+			out = append(out, x.typeInvFacts(u.At(i).Type(), vals[lo:lo+n], heap)...)
+			lo += n
+		}
+	}
+	return out
 }
